@@ -9,12 +9,14 @@ Record gen_obs := {
   g_keys : list string;                                  (* path keys / OpenRPC method names, in document order *)
   g_entries : list (string * (list Z * list string));    (* per key: documented error codes (closure of the entry), direct references (component names) *)
   g_names : list (string * string);                      (* per key: the method name its request schema documents (const of `method`) *)
+  g_params : list (string * list string);                (* per key: the parameter names its request schema / params list documents *)
   g_components : list string;                            (* component keys *)
   g_all_refs : list string;                              (* every reference of the document *)
   g_digest : string;                                     (* digest of the whole document *)
   g_json_ok : bool; g_meta_ok : bool }.                  (* tests: json.dumps succeeded; validates against the official meta-schema *)
 Record case := {
   is_rpc : bool; oas30 : bool; global_prefix : string; heap_before : heap; methods : list smethod;
+  own_params : list (string * list string);              (* per key: the function's own parameter names (pydantic-first stacks) *)
   gens : list gen_obs; heaps_after : list heap }.        (* one observation and one heap snapshot per generation *)
 
 Definition zset_eqb (a b : list Z) : bool := forallb (fun x => existsb (Z.eqb x) b) a && forallb (fun x => existsb (Z.eqb x) a) b.
@@ -33,7 +35,16 @@ Definition mismatch (c : case) : bool :=
 Fixpoint nodup_str (l : list string) : bool := match l with [] => true | x :: r => negb (mem_str x r) && nodup_str r end.
 Definition own_codes (c : case) (m : smethod) : list Z :=
   (match sm_ann_errors m with Some i => nth i (heap_before c) [] | None => [] end) ++ sm_ext_errors m.
-Definition ok (c : case) : bool :=
+(* known finding F20: the names of the components generated for a method are derived from its NAME (and its component prefix)
+   only, so two different functions exposed under one name at two endpoints with the same effective prefix share - and overwrite -
+   each other's components *)
+Definition name_part (k : string) : string := match index 0 "#" k with Some i => substring (S i) (String.length k) k | None => k end.
+Definition collides (c : case) (k : string) : bool :=
+  existsb (fun m => negb (String.eqb (sm_key m) k) && String.eqb (name_part (sm_key m)) (name_part k)
+                    && existsb (fun m' => String.eqb (sm_key m') k
+                                          && String.eqb (own_prefix (global_prefix c) m') (own_prefix (global_prefix c) m)) (methods c))
+          (methods c).
+Definition ok_gen (skip : string -> bool) (c : case) : bool :=
   forallb (fun g =>
      (* complete: every registered method exactly once under its key *)
      nodup_str (g_keys g) && forallb (fun m => mem_str (sm_key m) (g_keys g)) (methods c)
@@ -41,6 +52,11 @@ Definition ok (c : case) : bool :=
      (* ... and under its own exposed name: the request schema of an entry names the method of that entry *)
      && forallb (fun kn => let k := fst kn in
                            String.eqb (snd kn) (match index 0 "#" k with Some i => substring (S i) (String.length k) k | None => k end)) (g_names g)
+     (* ... with its own parameters, not those of another function exposed under the same name elsewhere *)
+     && forallb (fun kp => skip (fst kp) ||
+                           match get (fst kp) (g_params g) with
+                           | Some ps => forallb (fun x => mem_str x (snd kp)) ps && forallb (fun x => mem_str x ps) (snd kp)
+                           | None => false end) (own_params c)
      (* closed: no dangling reference *)
      && forallb (fun r => mem_str r (g_components g)) (g_all_refs g)
      (* isolated: a method documents its own errors only and refers to components under its own prefix only *)
@@ -53,11 +69,16 @@ Definition ok (c : case) : bool :=
   (* pure: the user's lists are untouched and every generation yields the identical document *)
   && forallb (fun h => heap_eqb h (heap_before c)) (heaps_after c)
   && match gens c with [] => true | g0 :: rest => forallb (fun g => String.eqb (g_digest g) (g_digest g0)) rest end.
+Definition ok (c : case) : bool := ok_gen (fun _ => false) c.
+Definition ok_mod (c : case) : bool := ok_gen (collides c) c.
 (* validates against the official meta-schema (test) *)
 Definition meta_valid (c : case) : bool := forallb g_meta_ok (gens c).
 (* known finding F18: with openapi='3.0.x' the documents use JSON-Schema keywords (const ...) the OAS 3.0 meta-schema forbids *)
 Definition check (c : case) : nat :=
   let bad := negb (ok c && meta_valid c) in
-  verdict (mismatch c) bad (Nat.ltb 1 (List.length (methods c))) (if bad && ok c && oas30 c then 1 else 0).
+  (* known: only the meta-schema of OpenAPI 3.0 fails (F18 = 1); only parameter lists of colliding same-named methods are wrong
+     (F20 = 2, possibly together with F18); anything else is a violation *)
+  let cls := if bad && ok_mod c && (meta_valid c || oas30 c) then (if ok c then 1 else 2) else 0 in
+  verdict (mismatch c) bad (Nat.ltb 1 (List.length (methods c))) cls.
 Definition run (cs : list case) : list nat := map check cs.
 Definition show (c : case) := map (fun ke => (fst ke, en_errors (snd ke))) (model_entries c).
